@@ -394,6 +394,11 @@ func runC11(c *Ctx) {
 	// ---------- R11.8 event tables
 	c.Rule("R11.8", "E4", "event-type tables inverse and exhaustive; Resource/Old/Error/Bookmark cross in both directions", 6)
 	eventTables(c, "R11.8")
+
+	// ---------- R11.10 selector conversion is term by term
+	c.Rule("R11.10", "E3", "query converters (server ConvertLabelQuery, client transformLabelQuery): what is built for one term depends on that term only — no slice, string or option list carried over from the previous term", 2)
+	perTermRules(c, "R11.10")
+
 }
 
 // wireSafety: sink rules on server + resource/protobuf decoding functions.
